@@ -5,5 +5,9 @@ import SpecsModel.Props.C15
 #print axioms SpecsModel.C15.only_serialisers_panic
 #print axioms SpecsModel.C15.mark_marked
 #print axioms SpecsModel.C15.mark_unmarked
+#print axioms SpecsModel.C15.runFrom_append_fst
+#print axioms SpecsModel.C15.runFrom_marks
+#print axioms SpecsModel.C15.lazy_marking_is_a_history
+#print axioms SpecsModel.C15.lazy_marking_keeps_markers_unique
 #print axioms SpecsModel.C15.deserialize_merges
 #print axioms SpecsModel.C15.reload_creates_nothing
